@@ -88,9 +88,21 @@ func projected(ev *sopx.Event, tid int, stores map[string]int) (string, bool) {
 
 // CoqCase renders one outcome as a Corr.Proto.protocase, or reports why it is outside the model's scope.
 func CoqCase(o *Outcome) (string, string) {
-	out, c := o.Out, o.Case
+	return coqCase(o.Out, o.Case, nil, "")
+}
+
+// CoqCrashCase renders a crash outcome as a Corr.Proto crash case.
+func CoqCrashCase(o *CrashOutcome) (string, string) {
+	if o.Out == nil || o.Post == nil || !o.Out.Crashed {
+		return "", "no crash state"
+	}
+	return coqCase(o.Out, o.Case, o.Post, o.Class)
+}
+
+func coqCase(out *ChildOut, c *Case, crashPost *State, class string) (string, string) {
 	p := c.Program
-	if out.Crashed || out.Sets == nil || out.Pre == nil || out.Post == nil {
+	crash := crashPost != nil
+	if out.Sets == nil || out.Pre == nil || (!crash && (out.Crashed || out.Post == nil)) {
 		return "", "crash-or-incomplete"
 	}
 	if p.Txns[c.Subject].End != "commit" {
@@ -122,6 +134,9 @@ func CoqCase(o *Outcome) (string, string) {
 				return "", "fault at a call outside the model alphabet (" + ev.Key() + ")"
 			}
 			faultIdx = len(trace)
+			if crash {
+				break // the call at the crash point never happened
+			}
 		}
 		if !ok {
 			if ev.Iface != "l2" && ev.Iface != "sr" && ev.Key() != "reg.Replicate" && ev.Key() != "blob.GetOne" && ev.Iface != "tlog" {
@@ -229,6 +244,25 @@ func CoqCase(o *Outcome) (string, string) {
 	tracked := len(out.Events) > 0 && out.Events[0].Key() == "tlog.Add" && out.Events[0].Step == 2
 	txn := fmt.Sprintf("(mkT %s %s %s %s %s %s %s %s %s %s %s)", hx.CoqBool(tracked), coqNs(vals), coqNs(rbVals), coqNs(obsolete), coqNs(ids(s.Roots)), pairs(s.Fetched),
 		hx.CoqList(upd), pairs(s.Removed), coqNs(ids(s.Added)), hx.CoqList(deltas), hx.CoqList(rbStores))
+	if crash {
+		if faultIdx < 0 {
+			return "", "crash point not in the projected trace"
+		}
+		if c.Fault.Mode == "crashtorn" {
+			var written []int
+			for _, ev := range out.Events {
+				if ev.Seq == c.Fault.Index {
+					for i, h := range ev.Handles {
+						if i < c.Fault.Torn {
+							written = append(written, h.Lid)
+						}
+					}
+				}
+			}
+			return fmt.Sprintf("(CrashTorn %s %s %d%%nat %s %s %s)", txn, coqDisk(out.Pre, stores), faultIdx, coqNs(written), hx.CoqList(storeIdx), coqDisk(crashPost, stores)), ""
+		}
+		return fmt.Sprintf("(CrashAt %s %s %d%%nat %s %s)", txn, coqDisk(out.Pre, stores), faultIdx, hx.CoqList(storeIdx), coqDisk(crashPost, stores)), ""
+	}
 	f := "None"
 	if faultIdx >= 0 {
 		f = fmt.Sprintf("(Some %d%%nat)", faultIdx)
